@@ -396,6 +396,7 @@ where
 
 	fn get_stored_tx(&self, uuid: &str) -> Result<Option<Transaction>, Error> {
 		let filename = format!("{}.grintx", uuid);
+		let filename_disp = filename.clone();
 		let path = path::Path::new(&self.data_file_dir)
 			.join(TX_SAVE_DIR)
 			.join(filename);
@@ -403,15 +404,19 @@ where
 		let mut tx_f = File::open(tx_file)?;
 		let mut content = String::new();
 		tx_f.read_to_string(&mut content)?;
-		let tx_bin = util::from_hex(&content).unwrap();
-		Ok(Some(
-			ser::deserialize(
-				&mut &tx_bin[..],
-				ser::ProtocolVersion(1),
-				ser::DeserializationMode::default(),
-			)
-			.unwrap(),
-		))
+		// a partially written or corrupted file is an error, not a crash
+		if !content.is_ascii() {
+			return Err(Error::StoredTx(format!("{} is not hex", filename_disp)));
+		}
+		let tx_bin = util::from_hex(&content)
+			.map_err(|_| Error::StoredTx(format!("{} is not hex", filename_disp)))?;
+		let tx = ser::deserialize(
+			&mut &tx_bin[..],
+			ser::ProtocolVersion(1),
+			ser::DeserializationMode::default(),
+		)
+		.map_err(|e| Error::StoredTx(format!("{} is corrupted: {}", filename_disp, e)))?;
+		Ok(Some(tx))
 	}
 
 	fn batch<'a>(
